@@ -64,8 +64,10 @@ def tree_tokens(t) -> str:
 
 # ------------------------------------------------------------------ implementation adapter
 
-def run_impl(tree, exts: str, mode: str, late: int = 0, kinds: str = "", pairs: Any = None) -> str:
-    """`late` > 0: the last `late` extensions are registered AFTER a first complete walk of the same visitor
+def run_impl(tree, exts: str, mode: str, late: int = 0, kinds: str = "", pairs: Any = None, dacts: str = "") -> str:
+    """`dacts`: per preorder id the pruning action the MAIN visitor's depart_ method raises for the node ('n' / missing:
+    it returns) — `_TreePruningException`: "Raise subclasses from within visit_... or depart_... methods".
+    `late` > 0: the last `late` extensions are registered AFTER a first complete walk of the same visitor
     instance (ExtList.add on a live visitor); the trace returned is that of the second walk.
     `kinds`: node class per preorder id — N (handlers visit_N / depart_N), L (class Low, handlers visit_low / depart_low:
     the lower-case lookup), S (a SUBCLASS of N without handlers of its own: generic handlers), O (unrelated class: generic
@@ -115,6 +117,15 @@ def run_impl(tree, exts: str, mode: str, late: int = 0, kinds: str = "", pairs: 
     def leave(self, ob, fam):
         pairs.setdefault(("M", ob.id), [None, None])[1] = fam
         log.append("Md%d" % ob.id)
+        a = dacts[ob.id] if ob.id < len(dacts) else "n"
+        if a == "c":
+            raise self.SkipChildren()
+        if a == "s":
+            raise self.SkipSiblings()
+        if a == "k":
+            raise self.SkipNode()
+        if a == "d":
+            raise self.SkipDeparture()
 
     class Main(V.Visitor):
         @classmethod
@@ -264,6 +275,84 @@ def oracle(tree, exts: str, out: str) -> Tuple[str, str] | None:
     return None
 
 
+def oracle_departure(tree, exts: str, dacts: str, out: str) -> Tuple[str, str] | None:
+    """the main visitor prunes from depart_ methods as well.  Written from the statement, on the trace alone: every
+    extension that entered a node leaves it, enter/leave nest like the tree, a node is entered at most once, main
+    visitor and extensions see the same nodes, the block order is the documented one; SkipSiblings raised by the
+    departure of a node keeps its right siblings from being entered (the only pruning exception with a documented
+    meaning at that point; what the other three skip when raised by a departure is not judged).  Nothing but a
+    SkipSiblings of the walked node itself may leave walkabout()."""
+    body, _, outcome = out[3:].rpartition(" | ")
+    evs = body.split()
+    if outcome.startswith("Crash"):
+        return ("crash", outcome)
+    parent = {}
+    right = {}
+    for nd in flatten(tree):
+        kids = [k[0] for k in nd[2]]
+        for j, k in enumerate(kids):
+            parent[k] = nd[0]
+            right[k] = kids[j + 1:]
+    parent[tree[0]] = None
+    entered_by: Dict[str, List[int]] = {}
+    for who in ["M"] + ["E%d" % i for i in range(len(exts))]:
+        st: List[int] = []
+        seen: List[int] = []
+        for e in evs:
+            m = EV.match(e)
+            if m.group(1) != who:
+                continue
+            node = int(m.group(4))
+            if m.group(3) == "v":
+                if node in seen:
+                    return ("entered-twice", f"{who} enters node {node} twice")
+                if who == "M":
+                    # the main visitor may have skipped departures: what it left open beside `node` is closed
+                    while st and st[-1] != parent[node]:
+                        st.pop()
+                if (st[-1] if st else None) != parent[node]:
+                    return ("nesting", f"{who} enters node {node} while inside {st[-1] if st else None}, its parent is {parent[node]}")
+                seen.append(node)
+                st.append(node)
+            elif who == "M":
+                # the main visitor may have skipped departures: drop what it left open below `node`
+                while st and st[-1] != node:
+                    st.pop()
+                if not st:
+                    return ("unbalanced", f"main visitor departs node {node} it is not in")
+                st.pop()
+            elif node in st[:-1]:
+                return ("unbalanced:never-leaves", f"extension {who} ({exts[int(who[1:])]}) leaves node {node} while node(s) {st[st.index(node) + 1:]} it entered inside are still open: it never leaves them")
+            elif not st or st.pop() != node:
+                return ("unbalanced", f"extension {who} ({exts[int(who[1:])]}) leaves node {node} it is not in")
+        if who != "M" and st:
+            return ("unbalanced:never-leaves", f"extension {who} ({exts[int(who[1:])]}) entered node(s) {st} and never left")
+        entered_by[who] = seen
+    if any(v != entered_by["M"] for v in entered_by.values()):
+        return ("prune-meaning", "main visitor and extensions do not enter the same nodes")
+    departed = {int(e[2:]) for e in evs if e.startswith("Md")}
+    for nd in flatten(tree):
+        i = nd[0]
+        if i in departed and i < len(dacts) and dacts[i] == "s" and any(r in entered_by["M"] for r in right.get(i, [])):
+            return ("siblings-not-skipped", f"departure of node {i} raised SkipSiblings, a right sibling was entered")
+    rank_v = {"b": 0, "o": 1, "M": 2, "a": 3, "i": 4}
+    rank_d = {"b": 0, "i": 1, "M": 2, "a": 3, "o": 4}
+    prev = None
+    for e in evs:
+        m = EV.match(e)
+        who = "M" if m.group(1) == "M" else exts[int(m.group(2))]
+        kind, node = m.group(3), m.group(4)
+        r = (rank_v if kind == "v" else rank_d)[who]
+        if prev and prev[0] == kind and prev[1] == node and r < prev[2]:
+            return ("order", f"{e} out of documented order")
+        prev = (kind, node, r)
+    root = tree[0]
+    root_s = tree[1] == "s" or (root in departed and root < len(dacts) and dacts[root] == "s")
+    if outcome != "return" and not (outcome == "SkipSiblings" and root_s):
+        return ("escape", f"{outcome} raised by a departure left walkabout()")
+    return None
+
+
 def flatten(t):
     yield t
     for c in t[2]:
@@ -291,6 +380,23 @@ MOD_SNIPPETS = [
     "import os, sys as _s\nfrom os import path as {n}\n",
     "__all__ = ['{n}']\n",
     "lambda_{n} = lambda x: x\n",
+    # expression statements: the builder's visit_Expr hands their value to the extensions
+    "{n}()\n",
+    "'''a string statement'''\n",
+    "{n}.register({n}, key=lambda v: v)\n",
+    "(lambda: 0)\n",
+    "1 if {n} else 2\n",
+    "...\n",
+    "[{n} for _ in ()]\n",
+]
+
+# fixed modules run before the generated ones (detection does not depend on the seed)
+BUILDER_CORPUS = [
+    '"""Module docstring."""\nfoo()\n',                                     # hunt/C19/1
+    'class C:\n    """doc"""\n    x = 1\n    """attr doc"""\n    foo(lambda: 0)\n    (a if b else c)\n    def m(self):\n        """m"""\n        bar()\n',
+    'if __name__ == "__main__":\n    main()\nelse:\n    other()\n',
+    'try:\n    import x\n    x.y()\nexcept ImportError:\n    """s"""\n',
+    'from zope.interface import implementer, Interface\nclass I(Interface):\n    pass\n@implementer(I)\nclass K:\n    """k"""\n',
 ]
 
 
@@ -310,14 +416,23 @@ def gen_module(rng, depth=0) -> str:
     return "".join(parts)
 
 
+BUILDER_EXTS = "baio"
+
+
 def ast_tree_and_run(src: str):
-    """process src with the real builder; return (model request, impl answer, final stack state)"""
-    from pydoctor import model, astbuilder, visitor as V
+    """process src with the real builder and FOUR TRACING EXTENSIONS (one per timing) that record every node they are
+    handed, whatever its class; return (model request, impl answer, nontrivial, crash, final stack state, oracle verdict).
+
+    The main visitor's own dispatch is observed exactly where Visitor.visit / Visitor.depart call it
+    (`super().visit(ob)`): class Hook sits between Visitor and _BaseVisitor in the MRO of the spy class.  A node that
+    is visited although the walk (get_children) does not lead to it - visited BY a visit_ method of the main visitor -
+    gets a fresh id and is recorded as an inline child of the node whose visit_ method was running."""
+    from pydoctor import model, astbuilder, astutils, visitor as V
 
     system = model.System()
     modast = ast.parse(src)
-    ids = {}
-    order = []
+    ids: Dict[int, int] = {}
+    order: List[ast.AST] = []
 
     def number(node):
         ids[id(node)] = len(ids)
@@ -327,26 +442,54 @@ def ast_tree_and_run(src: str):
     number(modast)
     log: List[str] = []
     skipped = set()
+    inl: List[Tuple[int, int]] = []
+    cur: List[int] = []
+
+    def nid(ob) -> int:
+        k = ids.get(id(ob))
+        if k is None:
+            k = ids[id(ob)] = len(ids)
+            order.append(ob)
+            inl.append((cur[-1] if cur else -1, k))
+        return k
 
     Base = astbuilder.ModuleVistor
 
-    class Spy(Base):
-        # Visitor.visit = extensions + `super().visit(ob)` (the main visitor's own dispatch, where the
-        # pruning exception is raised): spy on that inner dispatch through the MRO.
+    class Hook(V._BaseVisitor):           # MRO of Spy: ModuleVistor, NodeVisitor, PartialVisitor, Visitor, Hook, _BaseVisitor
         def visit(self, ob):
-            if id(ob) in ids:
-                log.append("Mv%d" % ids[id(ob)])
+            k = nid(ob)
+            log.append("Mv%d" % k)
+            cur.append(k)
             try:
-                Base.visit(self, ob)
+                super().visit(ob)
             except V.Visitor._TreePruningException as ex:
-                if id(ob) in ids:
-                    skipped.add((ids[id(ob)], type(ex).__name__))
+                skipped.add((k, type(ex).__name__))
                 raise
+            finally:
+                cur.pop()
 
-        def depart(self, ob, extensions_only=False):
-            if not extensions_only and id(ob) in ids:
-                log.append("Md%d" % ids[id(ob)])
-            return Base.depart(self, ob, extensions_only)
+        def depart(self, ob):
+            log.append("Md%d" % nid(ob))
+            super().depart(ob)
+
+    class Spy(Base, Hook):
+        pass
+    assert Spy.__mro__.index(Hook) == Spy.__mro__.index(V.Visitor) + 1
+    whens = {"b": V.When.BEFORE, "a": V.When.AFTER, "i": V.When.INNER, "o": V.When.OUTTER}
+    classes = []
+    for idx, ch in enumerate(BUILDER_EXTS):
+        def mk(idx=idx, ch=ch):
+            class E(astutils.NodeVisitorExt):
+                when = whens[ch]
+
+                def unknown_visit(self, ob):
+                    log.append("E%dv%d" % (idx, nid(ob)))
+
+                def unknown_departure(self, ob):
+                    log.append("E%dd%d" % (idx, nid(ob)))
+            return E
+        classes.append(mk())
+    system._astbuilder_visitors.extend(classes)
     mod = system.Module(system, "m")
     system.addObject(mod)
     ab = system.defaultBuilder(system)
@@ -361,16 +504,162 @@ def ast_tree_and_run(src: str):
     def tok(node):
         i = ids[id(node)]
         return "( %d %s %s)" % (i, acts.get(i, "n"), "".join(tok(c) + " " for c in Base.get_children(node)))
-    scope = [ids[id(n)] for n in order if isinstance(n, (ast.Module, ast.ClassDef, ast.FunctionDef, ast.AsyncFunctionDef))]
+    scope = [ids[id(n)] for n in order if isinstance(n, (ast.Module, ast.ClassDef, ast.FunctionDef, ast.AsyncFunctionDef))
+             and not any(c == ids[id(n)] for _, c in inl)]
     skip = sorted(i for i in acts if acts[i] == "k")
-    req = "visitor stack %s %s %s" % (",".join(map(str, scope)) or "-", ",".join(map(str, skip)) or "-", tok(modast))
+    req = "visitor bstack %s %s %s %s %s" % (",".join(map(str, scope)) or "-", ",".join(map(str, skip)) or "-",
+                                            ",".join("%d:%d" % pc for pc in inl) or "-", BUILDER_EXTS, tok(modast))
     if outcome:
         impl = "ok " + " ".join(log) + " | " + outcome
     else:
         depth = len(ab._stack)
-        impl = "ok " + " ".join(log) + " | stack " + ("-" if depth == 0 and ab.current is None else f"depth={depth},current={ab.current!r}")
+        impl = "ok " + " ".join(log) + " | return | stack " + ("-" if depth == 0 and ab.current is None else f"depth={depth},current={ab.current!r}")
     nontriv = bool(skip) or len(scope) > 2
-    return req, impl, nontriv, outcome, (len(ab._stack), ab.current)
+    # ---- direct oracle on the extensions' view of the real walk: the walked tree (get_children) with the nodes a
+    # visit_ method visited itself hung in as first children of the node they were visited from
+    inl_of: Dict[int, List[int]] = {}
+    for pnt, c in inl:
+        inl_of.setdefault(pnt, []).append(c)
+
+    def otree(node):
+        i = ids[id(node)]
+        return (i, acts.get(i, "n"), [(c, acts.get(c, "n"), []) for c in inl_of.get(i, [])] + [otree(c) for c in Base.get_children(node)])
+    verdict = None
+    if not outcome:
+        t = otree(modast)
+        trace = "ok " + " ".join(log) + " | return"
+        never = set()
+        for idx in range(len(BUILDER_EXTS)):
+            who = "E%d" % idx
+            ent = [int(e[len(who) + 1:]) for e in log if e.startswith(who + "v")]
+            left = {int(e[len(who) + 1:]) for e in log if e.startswith(who + "d")}
+            never |= {n for n in ent if n not in left}
+        if never:
+            def desc(n):
+                node = order[n]
+                for pnt, c in inl:
+                    if c == n and pnt >= 0:
+                        for fname, val in ast.iter_fields(order[pnt]):
+                            if val is node or (isinstance(val, list) and any(x is node for x in val)):
+                                return "%s.%s" % (type(order[pnt]).__name__, fname)
+                return type(node).__name__
+            kinds = sorted({desc(n) for n in never})
+            verdict = ("never-leaves:" + ",".join(kinds),
+                       "extensions enter node(s) %s and never leave them (%s)" % (sorted(never), ", ".join(kinds)))
+        else:
+            verdict = oracle_departure(t, BUILDER_EXTS, "", trace) or oracle(t, BUILDER_EXTS, trace)
+    return req, impl, nontriv, outcome, (len(ab._stack), ab.current), verdict
+
+
+# ------------------------------------------------------------------ builder on small packages (nested processing, re-exports)
+
+PROJECT_CORPUS = [
+    # hunt/C19/3: pkg.z is processed from INSIDE class C of pkg.a and takes C away (re-export); then C.f is entered again
+    {"pkg": "", "pkg.a": "from typing import overload, TYPE_CHECKING\nclass C:\n    @overload\n    def f(self, x: int) -> int: ...\n"
+                         "    if TYPE_CHECKING:\n        from pkg.z import Q\n    @overload\n    def f(self, x: str) -> str: ...\n    def f(self, x): return x\n",
+     "pkg.z": "from pkg.a import C\n__all__ = ['C']\nQ = int\n"},
+]
+
+MEMBERS = [
+    "    @overload\n    def f(self, x: int) -> int: ...\n",
+    "    @overload\n    def f(self, x: str) -> str: ...\n",
+    "    def f(self, x): return x\n",
+    "    def g(self):\n        \"doc\"\n",
+    "    class Inner:\n        v = 1\n",
+    "    attr = 1\n    \"attr doc\"\n",
+    "    @property\n    def p(self): return 1\n",
+    "    @p.setter\n    def p(self, v): pass\n",
+]
+
+
+def gen_project(rng) -> Dict[str, str]:
+    """package pkg with modules a (defines class C, and imports from z somewhere) and z (imports C from a and may
+    re-export it): whichever is processed first, the other one is processed from inside it"""
+    imp = rng.choice(["from pkg.z import Q\n", "import pkg.z\n", "from pkg.z import *\n", "from .z import Q as R\n"])
+    guard = rng.random() < 0.6
+
+    def at(ind: str) -> str:
+        return (ind + "if TYPE_CHECKING:\n" + ind + "    " + imp) if guard else ind + imp
+    members = [rng.choice(MEMBERS) for _ in range(rng.randint(1, 5))]
+    if rng.random() < 0.6:
+        members = [MEMBERS[0]] + members + [MEMBERS[1], MEMBERS[2]]
+    where = rng.choice(["class", "class", "class", "module-before", "module-after", "method"])
+    a = "from typing import overload, TYPE_CHECKING\n"
+    if where == "module-before":
+        a += at("")
+    a += "class C:\n"
+    pos = rng.randint(0, len(members))
+    for j, m in enumerate(members):
+        if where == "class" and j == pos:
+            a += at("    ")
+        a += m
+    if where == "class" and pos == len(members):
+        a += at("    ")
+    if where == "method":
+        a += "    def late(self):\n" + at("        ") + "        return 0\n"
+    if where == "module-after":
+        a += at("")
+    a += rng.choice(["", "def top(): pass\n", "@overload\ndef h(a: int) -> int: ...\n@overload\ndef h(a: str) -> str: ...\ndef h(a): return a\n"])
+    z = rng.choice(["from pkg.a import C\n", "from .a import C\n", "from pkg.a import *\n", "from pkg.a import C as D\n"])
+    z += rng.choice(["__all__ = ['C']\n", "__all__ = ['C', 'Q']\n", "", "__all__ = ['D']\n"]) + "Q = int\n"
+    init = rng.choice(["", "from pkg.z import C\n__all__ = ['C']\n", "from .a import C\n"])
+    return {"pkg": init, "pkg.a": a, "pkg.z": z}
+
+
+def run_project(units: Dict[str, str], order: List[str]):
+    """build the package with the real system; every ASTBuilder created is kept, a BEFORE extension records what it
+    enters and leaves per walked module.  Returns (crash or None, [(stack depth, current)], unbalanced modules)."""
+    import traceback
+    from pydoctor import model, astutils, visitor as V
+    system = model.System()
+    builders = []
+
+    class Rec(system.defaultBuilder):           # type: ignore[name-defined,misc]
+        def __init__(self, *a, **kw):
+            super().__init__(*a, **kw)
+            builders.append(self)
+    system.defaultBuilder = Rec
+    traces: Dict[int, List[Tuple[str, int]]] = {}
+    names: Dict[int, str] = {}
+
+    class T(astutils.NodeVisitorExt):
+        when = V.When.BEFORE
+
+        # statements only: what happens to the value of an expression statement is the single-module stream's business
+        def unknown_visit(self, ob):
+            if isinstance(ob, (ast.stmt, ast.mod)):
+                names[id(self.visitor)] = self.visitor.module.fullName()
+                traces.setdefault(id(self.visitor), []).append(("v", id(ob)))
+
+        def unknown_departure(self, ob):
+            if isinstance(ob, (ast.stmt, ast.mod)):
+                traces.setdefault(id(self.visitor), []).append(("d", id(ob)))
+    system._astbuilder_visitors.append(T)
+    b = system.systemBuilder(system)
+    for name in sorted(units):
+        parent, _, short = name.rpartition(".")
+        b.addModuleString(units[name], short, parent_name=parent or None, is_package=(name == "pkg"))
+    mods = {m.fullName(): m for m in system.unprocessed_modules}
+    system.unprocessed_modules[:] = [mods[n] for n in order]
+    crash = None
+    try:
+        b.buildModules()
+    except Exception as e:
+        fr = [f for f in traceback.extract_tb(e.__traceback__) if "/pydoctor/" in f.filename]
+        crash = "%s:%s" % (type(e).__name__, fr[-1].name if fr else "?")
+    stacks = [(len(x._stack), repr(x.current)) for x in builders]
+    open_mods = []
+    for key, tr in traces.items():
+        st: List[int] = []
+        ok = True
+        for kind, n in tr:
+            if kind == "v":
+                st.append(n)
+            elif not st or st.pop() != n:
+                ok = False
+        if st or not ok:
+            open_mods.append(names.get(key, "?"))
+    return crash, stacks, sorted(open_mods)
 
 
 # ------------------------------------------------------------------ run
@@ -457,10 +746,44 @@ def run(ctx: Ctx) -> None:
         ctx.count("mode:" + mode)
         ctx.count("nodes:%d" % sum(1 for _ in flatten(t)))
         if mode == "walkabout":
-            v = oracle(t, ex, out)
+            v = oracle(t, ex, out) or oracle_departure(t, ex, "", out)
             if v:
                 ctx.fail(v[0], {"tree": t, "exts": ex, "mode": mode, "impl": out}, v[1])
     ctx.compare("visitor-trace", reqs, impls, payload)
+    # the main visitor prunes from its depart_ methods as well ("Raise subclasses from within visit_... or depart_...
+    # methods"): every tree of <=3 nodes x every visit action x ONE node whose departure raises x timing sets, and
+    # random trees where several departures raise
+    qreqs, qimpls, qpay = [], [], []
+    dsets = subsets if not ctx.quick else ["", "b", "a", "i", "o", "baio"]
+    dcases = []
+    for n in range(1, 4):
+        for sh in shapes(n):
+            for acts in itertools.product(ACTS, repeat=n):
+                t = label(sh, acts)
+                for who in range(n):
+                    for da in "cskd":
+                        for ex in dsets:
+                            dcases.append((t, ex, "n" * who + da + "n" * (n - who - 1)))
+    ctx.extra["exhaustive_departure_cases"] = len(dcases)
+    for _ in range(1500 if ctx.quick else 40000):
+        n = ctx.rng.randint(1, 7)
+        sh = rand_shape(ctx.rng, n)
+        acts = [ctx.rng.choice(ACTS if ctx.rng.random() < 0.4 else "n") for _ in range(n)]
+        ex = "".join(ctx.rng.choice(TIMINGS) for _ in range(ctx.rng.randint(0, 5)))
+        da = "".join(ctx.rng.choice("cskd" if ctx.rng.random() < 0.3 else "n") for _ in range(n))
+        dcases.append((label(sh, acts), ex, da))
+    for t, ex, da in dcases:
+        req = "visitor walkaboutd %s %s %s" % (ex or "-", da, tree_tokens(t))
+        out = run_impl(t, ex, "walkabout", dacts=da)
+        qreqs.append(req)
+        qimpls.append(out)
+        qpay.append({"tree": t, "exts": ex, "mode": "walkabout", "dacts": da})
+        ctx.case(req, bool(ex) and da.strip("n") != "")
+        ctx.count("mode:walkabout-departure-raises")
+        v = oracle_departure(t, ex, da, out)
+        if v:
+            ctx.fail("depart-prune:" + v[0], {"tree": t, "exts": ex, "mode": "walkabout", "dacts": da, "impl": out}, v[1])
+    ctx.compare("visitor-departure-trace", qreqs, qimpls, qpay)
     # _BaseVisitor.visit / depart: which method handles a class, for visitors defining arbitrary subsets of handlers
     dreqs, dimpls, dpay = [], [], []
     from pydoctor import visitor as V
@@ -506,14 +829,14 @@ def run(ctx: Ctx) -> None:
     # builder stream
     nmods = 300 if ctx.quick else 5000
     breqs, bimpls, bpay = [], [], []
-    for _ in range(nmods):
-        src = gen_module(ctx.rng)
+    for k in range(nmods + len(BUILDER_CORPUS)):
+        src = BUILDER_CORPUS[k] if k < len(BUILDER_CORPUS) else gen_module(ctx.rng)
         try:
             ast.parse(src)
         except SyntaxError:
             ctx.count("builder:unparsable-generated")
             continue
-        req, impl, nontriv, outcome, st = ast_tree_and_run(src)
+        req, impl, nontriv, outcome, st, verdict = ast_tree_and_run(src)
         breqs.append(req)
         bimpls.append(impl)
         bpay.append({"source": src})
@@ -523,7 +846,33 @@ def run(ctx: Ctx) -> None:
             ctx.fail("builder-crash:" + outcome.split(":")[1], {"source": src}, outcome)
         elif st != (0, None):
             ctx.fail("builder-stack-not-empty", {"source": src}, f"after walkabout: depth={st[0]} current={st[1]!r}")
+        if verdict:
+            ctx.fail("builder-ext:" + verdict[0], {"source": src, "impl": impl}, verdict[1])
+        if "Expr(" in ast.dump(ast.parse(src)):
+            ctx.count("builder:modules-with-expression-statement")
     ctx.compare("builder-stack", breqs, bimpls, bpay)
+    # small packages: a module processed from inside another one (imports), re-exports moving objects meanwhile.
+    # No model stream (re-exports are not part of the Visitor model): the direct oracle only.
+    nproj = 250 if ctx.quick else 4000
+    for k in range(nproj + len(PROJECT_CORPUS)):
+        units = PROJECT_CORPUS[k] if k < len(PROJECT_CORPUS) else gen_project(ctx.rng)
+        try:
+            for src in units.values():
+                ast.parse(src)
+        except SyntaxError:
+            ctx.count("project:unparsable-generated")
+            continue
+        order = ["pkg"] + (["pkg.a", "pkg.z"] if k < len(PROJECT_CORPUS) or ctx.rng.random() < 0.5 else ["pkg.z", "pkg.a"])
+        crash, stacks, open_mods = run_project(units, order)
+        ctx.case("project %r %r" % (sorted(units.items()), order), True)
+        ctx.count("project:packages")
+        inp = {"units": units, "order": order}
+        if crash:
+            ctx.fail("builder-project:crash:" + crash, inp, f"walking the package aborts with {crash}; builder stacks (depth, current): {stacks}")
+        elif any(st != (0, "None") for st in stacks):
+            ctx.fail("builder-project:stack-not-empty", inp, f"builder stacks (depth, current) after the build: {stacks}")
+        elif open_mods:
+            ctx.fail("builder-project:ext-unbalanced", inp, f"a BEFORE extension did not leave what it entered while walking {open_mods}")
 
 
 def rand_shape(rng, n):
@@ -544,24 +893,35 @@ def replay(ctx: Ctx, obj) -> int:
         t = inp["tree"]
         t = tuple_tree(t)
         pairs = {}
-        out = run_impl(t, inp["exts"], inp.get("mode", "walkabout"), late=inp.get("late", 0), kinds=inp.get("kinds", ""), pairs=pairs)
+        out = run_impl(t, inp["exts"], inp.get("mode", "walkabout"), late=inp.get("late", 0), kinds=inp.get("kinds", ""), pairs=pairs,
+                       dacts=inp.get("dacts", ""))
         if inp.get("kinds"):
             print("node classes:", inp["kinds"], " handler families (enter, leave):", {"%s@%d" % k: v for k, v in sorted(pairs.items())})
         req = "visitor %s %s %s" % (inp.get("mode", "walkabout"), inp["exts"] or "-", tree_tokens(t))
+        if inp.get("dacts"):
+            req = "visitor walkaboutd %s %s %s" % (inp["exts"] or "-", inp["dacts"], tree_tokens(t))
         print("request:", req)
         print("impl   :", out)
         try:
             print("model  :", ctx.driver.run([req])[0])
         except Exception as e:
             print("model  : unavailable", e)
-        v = oracle(t, inp["exts"], out)
+        v = oracle_departure(t, inp["exts"], inp["dacts"], out) if inp.get("dacts") else oracle(t, inp["exts"], out)
         print("oracle :", v or "property holds on this input")
         return 1 if v else 0
+    if "units" in inp:
+        crash, stacks, open_mods = run_project(inp["units"], inp["order"])
+        print("crash  :", crash)
+        print("stacks :", stacks)
+        print("modules with an unbalanced extension trace:", open_mods)
+        return 1 if crash or open_mods or any(st != (0, "None") for st in stacks) else 0
     if "source" in inp:
-        req, impl, _, outcome, st = ast_tree_and_run(inp["source"])
+        req, impl, _, outcome, st, verdict = ast_tree_and_run(inp["source"])
+        print("request:", req)
         print("impl   :", impl)
         print("model  :", ctx.driver.run([req])[0])
-        return 0 if st == (0, None) and not outcome else 1
+        print("oracle :", verdict or "property holds on this input")
+        return 0 if st == (0, None) and not outcome and not verdict else 1
     print(obj)
     return 0
 
